@@ -39,7 +39,11 @@ PID = "C07"
 LIMIT = 1            # configured limit in seconds (os.time() has 1 s granularity)
 BOUND = 2.5          # aborted in-band no later than LIMIT + BOUND (1 granule + hook period + scheduling)
 KILL = 6.0           # hard kill LIMIT + KILL seconds after the start of the invocation
-DEVS = ["PcallCatchesTimeout", "CoroutineNoHook", "HookControlExported", "NestedInvokeResetsHook", "NestedTimeoutInBand"]
+DEVS = ["PcallCatchesTimeout", "CoroutineNoHook", "HookControlExported", "NestedInvokeResetsHook", "NestedTimeoutInBand",
+        "XpcallHandlerRunsInHook", "EnvStackHelperAcceptsNil"]
+# among deviation sets of the same size that explain an outcome the more specific deviation is named first
+SPECIFIC = ["EnvStackHelperAcceptsNil", "XpcallHandlerRunsInHook", "NestedTimeoutInBand", "NestedInvokeResetsHook", "HookControlExported",
+            "CoroutineNoHook", "PcallCatchesTimeout"]
 MAXEV = 14           # events reported per run (a prefix of the real behaviour)
 MAXLATE = 2          # notes "the time limit came back in-band from a nested invocation" kept beyond that prefix
 
@@ -60,8 +64,47 @@ NESTED = {
 }
 
 
+# wrappers whose INNER is the MESSAGE HANDLER of an xpcall, and the protected function that goes with it
+HANDLER_PF = {
+    "xhe": "error('c07')",                                              # entered for an ordinary error, outside any hook
+    "xht": "while true do end",                                         # entered for the time limit error, inside the count hook
+    "xhc": "colib.wrap(function() while true do end end)()",            # ... raised in a coroutine, handed on by its resumer
+}
+ARGVAL = {"nil": "nil", "false": "false", "table": "{}", "number": "7"}
+
+
+def helper_call(w: str):
+    """'hc:<helper>:<value class>' -> (helper, value class) or None"""
+    if not w.startswith("hc:"):
+        return None
+    _, h, v = w.split(":")
+    if not re.fullmatch(r"[A-Za-z_][A-Za-z0-9_]*", h) or v not in ARGVAL:
+        raise ValueError(w)
+    return h, v
+
+
 def wrap_code(w: str, inner: str, i: int) -> str:
     enter = f"ev('enter', {i}, '{w}')\n"
+    if w in HANDLER_PF:
+        # the handler reports that Lua entered it and for which class of error; an error raised inside a handler enters
+        # the handler again: reported again only when the time limit error arrives in a handler entered for another one
+        return (f"local hl{i} = nil\n"
+                f"local function h{i}(e)\n"
+                f"local c{i} = 'lua'\n"
+                f"if string.find(tostring(e), 'Lua timeout error', 1, true) then c{i} = 'timeout' end\n"
+                f"if hl{i} == nil or (hl{i} == 'lua' and c{i} == 'timeout') then hl{i} = c{i} ev('hdl', {i}, c{i}) end\n"
+                f"{inner}\nend\n" + enter +
+                f"local ok{i}, e{i} = xpcall(function() {HANDLER_PF[w]} end, h{i})\n"
+                f"if not ok{i} then ev('caught', {i}, tostring(e{i})) end")
+    if w == "mts":
+        return enter + f"local s{i} = tostring(setmetatable({{}}, {{__tostring = function()\n{inner}\nend}}))"
+    if w == "mix":
+        return enter + f"local v{i} = setmetatable({{}}, {{__index = function(t, k)\n{inner}\nend}}).c07"
+    if w == "coy":
+        return enter + f"local co{i} = colib.create(function() colib.yield(1) end)\ncolib.resume(co{i})\n{inner}"
+    hc = helper_call(w)
+    if hc:
+        return enter + f"pcall({hc[0]}, {ARGVAL[hc[1]]})\n{inner}"
     if w == "pcall":
         return enter + f"local ok{i}, e{i} = pcall(function()\n{inner}\nend)\nif not ok{i} then ev('caught', {i}, tostring(e{i})) end"
     if w == "xpcall":
@@ -98,9 +141,17 @@ def render(body: str, wrap: list[str], name: str = "c07p0") -> str:
     module, the enclosing code reaches it through Python (a nested call_lua_sandbox) and reports what came back."""
     code = BODY[body].format(i=len(wrap) + 1) if body == "invloop" else BODY[body]
     fns = []
+    lib = None
     for i in range(len(wrap), 0, -1):
         w = wrap[i - 1]
-        if w in NESTED:
+        if w in ("lix", "load"):
+            # the code is run by _lua_invoke itself, outside its pcall(fn, frame): while the module is loaded (chunk level)
+            # / by the lookup mod[fn_name] through the __index metamethod of the module table
+            if i != 1:
+                raise ValueError(wrap)
+            lib = w
+            code = f"ev('enter', 1, '{w}')\n" + code
+        elif w in NESTED:
             fns.append(lua_function(f"n{i}", code))
             code = (f"ev('enter', {i}, '{w}')\n"
                     f"local r{i} = " + NESTED[w].format(m=name, i=i) + "\n"
@@ -129,9 +180,12 @@ def render(body: str, wrap: list[str], name: str = "c07p0") -> str:
         "  if string.find(r, 'Lua execution error', 1, true) then return 'lua' end\n"
         "  return 'ok'\n"
         "end\n"
-        + lua_function("main", code)
+        + (lua_function("main", code) if lib is None else
+           "local function bylib()\nlocal okc, colib = pcall(require, 'coroutine')\n" + code + "\nend\n"
+           + ("bylib()\nfunction p.main(frame) return 'done' end\n" if lib == "load" else ""))
         + "".join(reversed(fns))
-        + "return p\n"
+        + ("return setmetatable(p, {__index = function(t, k)\nif k ~= 'main' then return nil end\nbylib()\n"
+           "return function(frame) return 'done' end\nend})\n" if lib == "lix" else "return p\n")
     )
 
 
@@ -211,12 +265,68 @@ def child(progs, d: str, conn):
     os._exit(0)
 
 
+def helper_roles_of_c06() -> list:
+    """names listed in HelperRoles of spec/SandboxReachStack.tla (the bookkeeping model of C06); [] if it cannot be read"""
+    try:
+        text = (common.SPEC / "SandboxReachStack.tla").read_text()
+        m = re.search(r"^HelperRoles\s*==\s*\[(.*?)\]\s*$", text, re.S | re.M)
+        return sorted(set(re.findall(r"(\w+)\s*\|->", m.group(1)))) if m else []
+    except OSError:
+        return []
+
+
+def _helpers_child(d: str, listed, conn):
+    sys.stdout = open(os.devnull, "w")
+    sys.stderr = open(os.devnull, "w")
+    try:
+        import lupa.lua51 as lupa_mod
+
+        ctx = luafix.make_ctx(d, {"c07env": "local p = {} function p.f(frame) return 'x' end return p"}, {}, record=True)
+        ctx.expand("{{#invoke:c07env|f}}")
+        envs = [e for e in ctx.lua_env_stack.seen if lupa_mod.lua_type(e) == "table"]
+        env = envs[-1]
+        names = []
+        for k, v in env.items():
+            if isinstance(k, str) and (k.startswith("_") or k in listed):
+                t = lupa_mod.lua_type(v)
+                if t == "function" or (t is None and callable(v)):
+                    names.append(k)
+        conn.send(sorted(names))
+    except BaseException as e:  # noqa: BLE001
+        conn.send("EXC " + repr(e)[:300])
+    conn.close()
+    os._exit(0)
+
+
+def start_live_helpers(d: Path):
+    """The sandbox bookkeeping helpers a module environment REALLY contains (every global of the environment handed to a
+    module whose name starts with '_' or that the bookkeeping model of C06 lists, and that can be called).  Started in a
+    child process before any thread exists; returns a function that waits for the names."""
+    a, b = mp.get_context("fork").Pipe(duplex=False)
+    pr = mp.get_context("fork").Process(target=_helpers_child, args=(str(d / "helpers"), helper_roles_of_c06(), b))
+    pr.start()
+    b.close()
+
+    def wait():
+        got = a.recv() if a.poll(120) else "EXC no answer"
+        pr.join(10)
+        if pr.is_alive():
+            pr.kill()
+        if not isinstance(got, list) or not got:
+            raise RuntimeError(f"could not enumerate the helpers of the module environment: {got}")
+        return got
+    return wait
+
+
 def limit_of(p) -> float:
     """The configured limit of a run: the model's one clock granule stands for any limit up to LIMIT seconds,
     whole or fractional (the Lua side counts whole seconds, so the abort still comes within LIMIT + BOUND)."""
     import zlib
 
-    return (LIMIT, 0.5, 0.3)[zlib.crc32(json.dumps([p["body"], p["wrap"]]).encode()) % 3]
+    h = zlib.crc32(json.dumps([p["body"], p["wrap"]]).encode())
+    if any(w.startswith("hc:") for w in p["wrap"]):
+        return (0.5, 0.3)[h % 2]     # (the large family of helper calls: the abort comes at the next full second)
+    return (LIMIT, 0.5, 0.3)[h % 3]
 
 
 def classify_run(k, elapsed, out, exc):
@@ -319,7 +429,7 @@ def explain(c, real, run=None):
     for dev, r in predictions(c).items():
         if real not in r:
             continue
-        k = (len(dev), ("NestedTimeoutInBand" in dev) != seen, sorted(dev))
+        k = (len(dev), ("NestedTimeoutInBand" in dev) != seen, sorted(SPECIFIC.index(x) if x in SPECIFIC else len(SPECIFIC) for x in dev), sorted(dev))
         if best is None or k < best[0]:
             best = (k, dev)
     return best and best[1]
@@ -329,15 +439,23 @@ def obs_class(cls):
     return {"late": "hung"}.get(cls, cls)
 
 
+HELPERS_ENV: dict = {}     # {"C07_HELPERS": file with the live helper names}: read by spec/LuaTimeout.tla (HelperNames)
+
+
 def load_programs(o, thorough):
     # Q: every body x wrapper lists up to length 1; QN: wrapper lists of length 2 with a nested invocation in them
-    # (where the non-terminating code runs: under / above a protected call, a catch-and-continue loop, a coroutine)
-    cfgs = ["Gen_LuaTimeout_Q.cfg", "Gen_LuaTimeout_QN.cfg"] + (["Gen_LuaTimeout_T2.cfg", "Gen_LuaTimeout_T3.cfg"] if thorough else [])
+    # (where the non-terminating code runs: under / above a protected call, a catch-and-continue loop, a coroutine);
+    # QW: where the endless code sits relative to a protected call (message handler of an xpcall entered for an ordinary
+    # error / for the time limit error, metamethods, code run by _lua_invoke itself, resumer of a coroutine);
+    # QH: every bookkeeping helper of the live module environment x {nil, false, table, number} before the loop
+    cfgs = (["Gen_LuaTimeout_Q.cfg", "Gen_LuaTimeout_QN.cfg"]
+            + (["Gen_LuaTimeout_TW.cfg", "Gen_LuaTimeout_TH.cfg", "Gen_LuaTimeout_T2.cfg", "Gen_LuaTimeout_T3.cfg"] if thorough
+               else ["Gen_LuaTimeout_QW.cfg", "Gen_LuaTimeout_QH.cfg"]))
     cases = {}
     from concurrent.futures import ThreadPoolExecutor
 
     with ThreadPoolExecutor(max_workers=4) as pool:
-        runs = list(pool.map(lambda cfg: tlc("Gen_LuaTimeout", cfg, workers=1, timeout=900), cfgs))
+        runs = list(pool.map(lambda cfg: tlc("Gen_LuaTimeout", cfg, workers=1, timeout=900, env=HELPERS_ENV), cfgs))
     for cfg, r in zip(cfgs, runs):
         o.add_tlc(cfg[:-4], r)
         for c in r.cases:
@@ -357,6 +475,33 @@ def fresh_follow(base: Path):
     if res["follow"] is None:
         raise RuntimeError("benign invocations failed on a fresh context")
     return res["follow"]
+
+
+def where_clause(c, run) -> str:
+    """What the program did before / where its endless code sits, as far as the running module reported it: names the
+    message handler / the bookkeeping helper in the 'why' of a verdict."""
+    out = ""
+    evs = run.get("events") or []
+    for i, w in enumerate(c["wrap"], start=1):
+        hc = helper_call(w)
+        if hc and any(e[0] == "enter" and int(e[1]) == i for e in evs):
+            out += (f"; before that the module had called the sandbox bookkeeping helper {hc[0]}({ARGVAL[hc[1]]}), which is exported into "
+                    "every module environment: no call of it may have an influence on the time limit"
+                    + (" (_python_top_env() is nil afterwards: the count hook and the re-raise of pcall/xpcall/coroutine.resume take that "
+                       "for 'no invocation in progress')" if hc == ("_python_append_env", "nil") else ""))
+        if w in HANDLER_PF:
+            entered = [e[2] for e in evs if e[0] == "hdl" and int(e[1]) == i]
+            if "timeout" in entered:
+                how = ("for the time limit error raised by the count hook in the protected function - inside the hook"
+                       if w == "xht" else
+                       "for the time limit error handed on by the resumer of the coroutine it struck in, and again - inside the count hook - "
+                       "for the one raised in the handler" if w == "xhc" else
+                       "for an ordinary error and again - inside the count hook - for the time limit error raised in the handler")
+                out += (f"; the endless code is the MESSAGE HANDLER of the module's xpcall (wrapper {i}, {w}): Lua entered it {how}, "
+                        "where Lua calls no further hooks, so nothing can stop it any more")
+            elif entered:
+                out += f"; the endless code is the message handler of the module's xpcall (wrapper {i}, {w}), entered for an ordinary error"
+    return out
 
 
 def judge(o, c, run, follow, fresh, where, recheck=None):
@@ -387,6 +532,7 @@ def judge(o, c, run, follow, fresh, where, recheck=None):
             why += (f"; the time limit struck inside the nested invocation {at}: it came back to the enclosing module as the "
                     "in-band 'Lua timeout error' element of the nested function and the enclosing module carried on")
             case["nested_timeout_in_band_at_wrapper"] = inband
+        why += where_clause(c, run)
         if dev is None:
             o.violation(case, f"{key(c)}: {why}; demanded: {want}; no modelled deviation predicts this", cls="unexplained:" + real)
         else:
@@ -574,7 +720,11 @@ def run(tier: str) -> int:
         "G: one case per program of the grammar body x wrapper list enumerated by TLC (distinct by body and wrapper "
         "list; every program is non-trivial: it is executed through #invoke with a 1 s limit; the wrapper kinds "
         "ninv/ninvt/ninvx and the body invloop put the non-terminating code into a NESTED invocation reached through "
-        "frame:preprocess / expandTemplate / extensionTag), plus histories of "
+        "frame:preprocess / expandTemplate / extensionTag; the kinds xhe/xht/xhc put it into the MESSAGE HANDLER of an xpcall - entered "
+        "for an ordinary error, for the time limit error inside the count hook, for the time limit error handed on by a coroutine's "
+        "resumer -, mts/mix into a metamethod, lix/load into code _lua_invoke runs outside its pcall, coy into the resumer of a "
+        "suspended coroutine; hc:<helper>:<value> calls one of the bookkeeping helpers of the LIVE module environment with "
+        "nil / false / a table / a number before the loop), plus histories of "
         "several programs on one context; each followed by benign invocations compared with a fresh context. "
         "V: one recorded event trace per executed program."
     )
@@ -584,6 +734,13 @@ def run(tier: str) -> int:
         "offline stand-ins for ustring/libraryUtil; nested #invoke through frame:preprocess, frame:expandTemplate of a template that invokes, "
         "frame:extensionTag with wikitext content (frame:callParserFunction('#invoke', ..) does not run the module in this library: it returns the call unexpanded)",
     ]
+    # ---- the bookkeeping helpers of the live module environment (child process, started before any thread exists)
+    with Scratch("c07h-") as hd:
+        return _run(o, thorough, Path(hd))
+
+
+def _run(o, thorough, hd: Path) -> int:
+    wait_helpers = start_live_helpers(hd)
     # ---- M
     for name, cfg, kw in (
         ("MC_ideal", "MC_LuaTimeout_ideal_T.cfg" if thorough else "MC_LuaTimeout_ideal.cfg", {"coverage": True}),
@@ -594,18 +751,19 @@ def run(tier: str) -> int:
         if kw:
             o.extra["action_coverage"] = luafix.coverage_actions(r.out)
     if thorough:
-        for d in ("Pcall", "Co", "HookCtl", "Nested", "InBand"):
+        for d in ("Pcall", "Co", "HookCtl", "Nested", "InBand", "Xh", "EnvNil"):
             r = tlc("MC_LuaTimeout", f"MC_LuaTimeout_dev{d}_T.cfg", workers=16, timeout=1500)
             o.add_tlc("MC_dev" + d, r)
-    never = [a for a in ('Invoke', 'Enter', 'Step', 'HookFires', 'Tick', 'Unwind', 'Ret') if not o.extra["action_coverage"].get(a)]
+    never = [a for a in ('Invoke', 'Enter', 'Step', 'PFStep', 'HookFires', 'Tick', 'Unwind', 'Ret') if not o.extra["action_coverage"].get(a)]
     if never:
         raise common.TLCError(f"actions never taken in the model-checking runs (vacuity): {never}")
     demos = {}
     demo_cfgs = (("pcall_survives", True), ("loop_escape", True), ("pcall_loop", False), ("coroutine", False), ("hookctl", False), ("nested", False),
-                 ("nested_inband", True), ("nested_inband_loop", False), ("nested_inband_invloop", False))
+                 ("nested_inband", True), ("nested_inband_loop", False), ("nested_inband_invloop", False),
+                 ("xhandler_hook", False), ("xhandler_error", False), ("envnil", False))
     from concurrent.futures import ThreadPoolExecutor
 
-    with ThreadPoolExecutor(max_workers=5) as pool:   # single-program configurations, one TLC worker each: run side by side
+    with ThreadPoolExecutor(max_workers=6) as pool:   # single-program configurations, one TLC worker each: run side by side
         demo_runs = list(pool.map(lambda nm: tlc("MC_LuaTimeout", f"Demo_LuaTimeout_{nm}.cfg", workers=1, check=False), [n for n, _ in demo_cfgs]))
     for (name, inv), r in zip(demo_cfgs, demo_runs):
         bad = bool(r.invariant_violated) if inv else bool(re.search(r"Temporal propert(y|ies) .*violated", r.out))
@@ -614,7 +772,18 @@ def run(tier: str) -> int:
             raise common.TLCError(f"Demo_LuaTimeout_{name} no longer shows its counterexample (vacuity guard)")
     o.extra["demo_counterexamples"] = demos
     # ---- G
+    names = wait_helpers()
+    listed = helper_roles_of_c06()
+    (hd / "helpers.json").write_text(json.dumps(names))
+    HELPERS_ENV["C07_HELPERS"] = str(hd / "helpers.json")
+    o.extra["live_helpers"] = names
+    if listed and set(names) != set(listed):
+        o.note_drift({"helpers_of_the_live_module_environment": sorted(set(names) - set(listed)),
+                      "listed_in_HelperRoles_of_SandboxReachStack_but_not_callable_there": sorted(set(listed) - set(names)),
+                      "note": "every live one is in the universe of this check whether or not the bookkeeping model of C06 knows it"})
     cases = load_programs(o, thorough)
+    if not any(helper_call(c["wrap"][0]) == (h, v) for c in cases if c["wrap"] for h in names[:1] for v in ("nil",)):
+        raise common.TLCError("the generator did not emit the helper calls of the live module environment")
     rng = random.Random(common.seed() * 7919 + 7)
     with Scratch("c07-") as d:
         fresh = fresh_follow(d)
@@ -728,6 +897,8 @@ def abstract_events(c, run, real):
             evs.append({"e": "caught", "i": i, "x": "timeout" if "Lua timeout error" in x else "lua"})
         elif what == "nret":
             evs.append({"e": "nret", "i": i, "x": x})
+        elif what == "hdl":
+            evs.append({"e": "hdl", "i": i, "x": x})
     complete = run["cls"] != "hung" and len(run["events"] or []) < MAXEV
     if complete and real in ("aborted", "error", "returned"):
         evs.append({"e": "done", "i": 0, "x": real})
@@ -764,7 +935,7 @@ def tlc_traces(o, recs, d: Path, tag=""):
     for gi, (dev, rs) in enumerate(sorted(groups.items())):
         tf = d / f"traces{tag}-{gi}.json"
         tf.write_text(json.dumps({"dev": list(dev), "traces": [{"body": r["body"], "wrap": r["wrap"], "events": r["events"]} for r in rs]}))
-        r = tlc("Trace_LuaTimeout", "Trace_LuaTimeout.cfg", workers=1, env={"TRACE_FILE": str(tf)}, timeout=1500)
+        r = tlc("Trace_LuaTimeout", "Trace_LuaTimeout.cfg", workers=1, env=dict(HELPERS_ENV, TRACE_FILE=str(tf)), timeout=1500)
         if o is not None:
             o.add_tlc(f"Trace{tag}[{'+'.join(dev) or 'ideal'}]", r)
         far = {}
